@@ -152,7 +152,8 @@ Definition ok_batch (d : dconfig) ctx (g : gen) (n : batch_notation) (o : c7obs)
   match n with
   | BnAdd items => ok_items d ctx (map item_parts items) o
   | BnGetitem items => ok_items d ctx (map (fun mp => (true, fst mp, PList (snd mp), true)) items) o
-  | BnSend _ => true
+  (* a hand-built BatchRequest: its requests are the items (a call iff it carries an id) *)
+  | BnSend rs => ok_items d ctx (map (fun r => (match r_id r with Some _ => true | None => false end, r_method r, r_params r, true)) rs) o
   end.
 
 (* known finding F7: the uuid generator yields ids the client cannot serialise *)
